@@ -793,8 +793,10 @@ func (h cachedHistogram) ValueBucket(
 	)
 
 	return reportSamplesFunc(func(value int64) {
-		m.Value.Count = value
-		rep.reportCopyMetric(m, size, bucket, bucketID)
+		// m is shared by every caller of this handle: work on a copy.
+		mm := m
+		mm.Value.Count = value
+		rep.reportCopyMetric(mm, size, bucket, bucketID)
 	})
 }
 
@@ -824,8 +826,10 @@ func (h cachedHistogram) DurationBucket(
 	)
 
 	return reportSamplesFunc(func(value int64) {
-		m.Value.Count = value
-		rep.reportCopyMetric(m, size, bucket, bucketID)
+		// m is shared by every caller of this handle: work on a copy.
+		mm := m
+		mm.Value.Count = value
+		rep.reportCopyMetric(mm, size, bucket, bucketID)
 	})
 }
 
